@@ -349,6 +349,44 @@ class ConciliationMasterEnter:
         return I06(self.supvisors.failure_handler)
 
 
+def repair_ready(state):
+    """what the Master's repair step (_WorkingState._master_next, run first by ConciliationState._master_next since the
+    fix: commit 7bdaadf) relies on: the handler invariant and the lost processes are processes of the context
+    (Context.invalidate_failed builds the report from the applications of the context)"""
+    h = state.supvisors.failure_handler
+    return (I06(h) and sequences_exist(h) and h.supvisors is state.supvisors
+            and forall(state.lost_processes, lambda p: context_knows(h, p)))
+
+
+@contract('statemachine:_WorkingState._master_next', props=['C05'])
+class RepairStepSeenFromConciliation:
+    """facet of the conflicts group for the step inherited from _WorkingState: one add_default_job per lost process, one
+    trigger_jobs; seen from the conciliation decision it only touches the handler's job sets (add_default_job: proved
+    by C06; trigger_jobs: assumed, only removes) and takes no decision"""
+    raises = ()
+    variants = ['ConciliationState']
+
+    def modifies(self):
+        return job_sets(self.supvisors.failure_handler)
+
+    def pre_ready(self):
+        return repair_ready(self)
+
+    def post_no_decision(self, result):
+        return result is None
+
+    def post_handler_invariant_kept(self):
+        h = self.supvisors.failure_handler
+        return I06(h) and sequences_exist(h)
+
+    def loop0_inv(self, seen):
+        h = self.supvisors.failure_handler
+        return I06(h) and sequences_exist(h)
+
+    def loop0_modifies(self):
+        return job_sets(self.supvisors.failure_handler)
+
+
 @contract('statemachine:ConciliationState._master_next', props=['C05'])
 class ConciliationMasterNext:
     """statement: 'once those stops are reported no conflict remains and Supvisors returns to OPERATION. With USER ...
@@ -362,6 +400,9 @@ class ConciliationMasterNext:
     def pre_state(self):
         return (I06(self.supvisors.failure_handler) and sequences_exist(self.supvisors.failure_handler) and context_valid(self.supvisors)
                 and processes_valid(self.supvisors.context))
+
+    def pre_repair_ready(self):
+        return repair_ready(self)
 
     def post_decision(self, result, old):
         """decided on the state found on entry"""
